@@ -75,8 +75,11 @@ StaticBad(cobs, d, f) ==
 
 TInit == PInit /\ l = 1
 TDefine(e) == Define(DecPd(e.pd))
+(* a field request made through an assembly carries the GLOBAL amplitude vector and the panel's offset:
+   the panel must be evaluated with its own slice c[coff+1 .. coff+Size(panel)] *)
+Sliced(r, e) == IF "coff" \in DOMAIN e.req THEN [r EXCEPT !.c = SubSeq(r.c, e.req.coff + 1, e.req.coff + Size(def))] ELSE r
 TEval(e) ==
-    LET r == DecReq(e.req)
+    LET r == Sliced(DecReq(e.req), e)
     IN /\ Eval(r)
        /\ IF e.req.q = "static"
           THEN LET bad == StaticBad(e.obs, def, out')
